@@ -655,7 +655,40 @@ func (e *Engine) registerMisc() {
 		if x.IsConst() {
 			return constStr(strconv.Quote(x.ConstString()))
 		}
-		return p.opaqueStr("strconv.Quote", []Value{x}, x.MaxLen()*4+2)
+		// exact model on ASCII input (forks per byte on the escape classes)
+		bs, n := p.concretizeLen(x, site)
+		out := constStr(`"`)
+		for i := 0; i < n; i++ {
+			b := bs[i]
+			if !b.IsInt() {
+				p.obligationAssume(smt.Lt(b, smt.Int(128)), site, "strconv.Quote of non-ASCII byte")
+			}
+			done := false
+			for _, e := range []struct {
+				c   byte
+				rep string
+			}{{'"', `\"`}, {'\\', `\\`}, {'\n', `\n`}, {'\r', `\r`}, {'\t', `\t`}, {'\a', `\a`}, {'\b', `\b`}, {'\f', `\f`}, {'\v', `\v`}} {
+				if p.branch(smt.Eq(b, smt.Int(int64(e.c)))) {
+					out = strConcat(out, constStr(e.rep))
+					done = true
+					break
+				}
+			}
+			if done {
+				continue
+			}
+			if p.branch(smt.And(smt.Ge(b, smt.Int(0x20)), smt.Le(b, smt.Int(0x7e)))) {
+				out = strConcat(out, bytesToStr([]*smt.Term{b}))
+				continue
+			}
+			hex := func(d *smt.Term) *smt.Term {
+				return smt.Ite(smt.Lt(d, smt.Int(10)), smt.Add(d, smt.Int('0')), smt.Add(d, smt.Int('a'-10)))
+			}
+			hi, lo := smt.Div(b, smt.Int(16)), smt.Mod(b, smt.Int(16))
+			out = strConcat(out, constStr(`\x`))
+			out = strConcat(out, bytesToStr([]*smt.Term{hex(hi), hex(lo)}))
+		}
+		return strConcat(out, constStr(`"`))
 	}
 	I["strconv.ParseFloat"] = func(p *Path, a []Value, site ssa.Instruction) Value {
 		s := a[0].(StrV)
